@@ -663,7 +663,7 @@ func runKeyless(r *runner) {
 			runOne(&sc)
 		}
 	}
-	n := e.N(40, 1200)
+	n := e.N(40, 500)
 	root := hx.NewRng(e.Seed*0xD6E8FEB86659FD93 ^ e.Rng.U64())
 	for i := 0; i < n; i++ {
 		runOne(kGen(root.Fork()))
